@@ -8,14 +8,15 @@ namespace glm
 	template<typename genIUType>
 	GLM_FUNC_QUALIFIER genIUType highestBitValue(genIUType Value)
 	{
-		genIUType tmp = Value;
-		genIUType result = genIUType(0);
+		typedef typename detail::make_unsigned<genIUType>::type U;
+		U tmp = static_cast<U>(Value);
+		U result = U(0);
 		while(tmp)
 		{
-			result = (tmp & (~tmp + 1)); // grab lowest bit
-			tmp &= ~result; // clear lowest bit
+			result = static_cast<U>(tmp & (~tmp + 1)); // grab lowest bit
+			tmp = static_cast<U>(tmp & ~result); // clear lowest bit
 		}
-		return result;
+		return static_cast<genIUType>(result);
 	}
 
 	template<length_t L, typename T, qualifier Q>
@@ -30,7 +31,9 @@ namespace glm
 	template<typename genIUType>
 	GLM_FUNC_QUALIFIER genIUType lowestBitValue(genIUType Value)
 	{
-		return (Value & (~Value + 1));
+		typedef typename detail::make_unsigned<genIUType>::type U;
+		U const v = static_cast<U>(Value);
+		return static_cast<genIUType>(v & (~v + 1));
 	}
 
 	template<length_t L, typename T, qualifier Q>
